@@ -224,3 +224,25 @@ META = {
  'technique': 'Lean 4 invariant proof (table = map = endpoints, exact dialer) + assumption-parametrised call-level theorems + model/implementation '
               'correspondence under testing/synctest'},
 }
+
+
+META["C09"] = {'design_ref': 'DESIGN.md §5 C09',
+ 'note': 'Trusted: Lean kernel; axioms propext/Classical.choice/Quot.sound only; the theorem statements; the Go harness (generators, canonicaliser) '
+         'that ties the hand-written model to /repo by differential execution on every run. Partial: clause (a) exactly-one-owner and clause (b) are '
+         'refuted at full strength and proved under explicit decidable hypotheses; the two refutations are recorded findings. Modelled not verified: '
+         'hashicorp/memberlist (the harness is the network; real memberlist is not started), gRPC between instances (the hand-off to the registered '
+         'intra-proxy stream is the observation point), wall-clock skew between machines (single-clock assumption).',
+ 'technique': 'Lean 4 inductive-invariant proof over a fine-grained transition system (all schedules) + kernel-checked counterexamples + '
+              'model/implementation correspondence on real shard managers',
+ 'text': 'Theorems over a fine-grained gossip machine for ANY number of instances and shards and EVERY action list (all orders, delays, duplications '
+         'of register / unregister announcements and full-state merges, leaves at any point): a holder is never older than a claim whose '
+         "announcement reached it, so only a newest claimant can remain (proved, inductive invariant); 'exactly the newest claimant remains' is "
+         'FALSE of the current tree (kernel-checked witness: two claims within one broadcast latency evict each other because the announcement '
+         'carries the broadcast time, not Created - reproduced on the real code incl. through two real proxyStreamSender streams: KNOWN-FINDING), '
+         'proved under the decidable disjoint-windows hypothesis and proved outright for the repaired model; after NotifyLeave a node stays absent '
+         "until one of its snapshots is merged (proved), 'departed own nothing' is FALSE when a snapshot is still in flight (witness, "
+         'KNOWN-FINDING), proved otherwise; routing clause as decision-logic theorems over every input of DeliverMessagesToShardOwner / '
+         'DeliverAckToShardOwner (true iff handed to exactly one of local stream / known remote owner, never both, false = nobody); '
+         'ReconcilePeerStreams desired sets = cross-cluster pairs and their inverses, nothing else survives. Model tied to 2-3 real '
+         'shardManagerImpls per schedule (exhaustive interleavings + random) step by step, to the real delivery functions over the full cross '
+         'product (real gRPC receiver for acks), and to the real ReconcilePeerStreams with real gRPC peers.'}
